@@ -29,40 +29,56 @@ Definition derived_name (o : op) (cname : option pystr) (k : klass) : pystr :=
 
 Definition as_objs (ms : members) : list (pystr * mstmt) := map (fun nm => (fst nm, SObj (snd nm))) ms.
 
-(* _init_class_dict: only what is in the source's OWN __dict__ among {_fields, _ignore_none, _defaults} *)
-Definition derived_stmt (name : pystr) (k : klass) (ms : members) (required : list pystr) : classstmt :=
+(* getattr(cls, '_ignore_none') through the classes [mro] names, when one of them sets the attribute *)
+Fixpoint inherited_ignore_none (g : genv) (mro : list pystr) : option bool :=
+  match mro with
+  | [] => None
+  | c :: t =>
+      match find_klass g c with
+      | Some kc => match k_ignore_none kc with Some b => Some b | None => inherited_ignore_none g t end
+      | None => inherited_ignore_none g t
+      end
+  end.
+
+(* hasattr(cls, '_ignore_none') / getattr(cls, '_ignore_none'): the class's own setting, else what its bases
+   give ([inh]) *)
+Definition effective_ignore_none (inh : option bool) (k : klass) : option bool :=
+  match k_ignore_none k with Some b => Some b | None => inh end.
+
+(* _init_class_dict: `_fields` / `_defaults` of the source's OWN __dict__ (both are overwritten by
+   StructMeta.__new__), and `_ignore_none` as the source sees it -- its own or an inherited one *)
+Definition derived_stmt (name : pystr) (ign : option bool) (ms : members) (required : list pystr) : classstmt :=
   {| s_name := name; s_bases := [n_Structure]; s_members := as_objs ms;
      s_required := Some required; s_optional := None; s_additional := None;
-     s_ignore_none := k_ignore_none k; s_attrs := []; s_keys_of := [] |}.
+     s_ignore_none := ign; s_attrs := []; s_keys_of := [] |}.
 
-(* AllFieldsRequiredMeta.__getitem__: getattr(v, "_default") has no fallback: a Constant has no _default *)
-Fixpoint all_required_seed (ms : members) : res (list pystr) :=
+(* AllFieldsRequiredMeta.__getitem__: every member whose getattr(v, "_default", None) is None -- a Constant
+   has no _default and is listed, too (as in the _required of an ordinary class statement) *)
+Fixpoint all_required_seed (ms : members) : list pystr :=
   match ms with
-  | [] => Ok []
-  | (n, MConst _) :: _ => Raise AttributeError
-  | (n, MField f) :: t =>
-      r <- all_required_seed t ;;
-      Ok (match fo_default f with None => n :: r | Some _ => r end)
+  | [] => []
+  | (n, m) :: t => if has_default m then all_required_seed t else n :: all_required_seed t
   end.
 
 Definition pick_members (src : members) (names : list pystr) : members :=
   flat_map (fun n => match alist_get src n with Some m => [(n, m)] | None => [] end) (dedup_str names).
 
-Definition derive_stmt (k : klass) (o : op) (cname : option pystr) : res classstmt :=
+Definition derive_stmt (inh : option bool) (k : klass) (o : op) (cname : option pystr) : res classstmt :=
   let name := derived_name o cname k in
   let src := k_all k in
+  let ign := effective_ignore_none inh k in
   match o with
-  | OpPartial => Ok (derived_stmt name k src [])
-  | OpAllRequired => r <- all_required_seed src ;; Ok (derived_stmt name k src r)
-  | OpExtend => Ok (derived_stmt name k src (k_required k))
+  | OpPartial => Ok (derived_stmt name ign src [])
+  | OpAllRequired => Ok (derived_stmt name ign src (all_required_seed src))
+  | OpExtend => Ok (derived_stmt name ign src (k_required k))
   | OpOmit ns =>
       if forallb (fun n => alist_has src n) ns
-      then Ok (derived_stmt name k (filter (fun nm => negb (str_in (fst nm) ns)) src)
+      then Ok (derived_stmt name ign (filter (fun nm => negb (str_in (fst nm) ns)) src)
                             (filter (fun x => negb (str_in x ns)) (k_required k)))
       else Raise TypeError
   | OpPick ns =>
       if forallb (fun n => alist_has src n) ns
-      then Ok (derived_stmt name k (pick_members src ns) (filter (fun x => str_in x ns) (k_required k)))
+      then Ok (derived_stmt name ign (pick_members src ns) (filter (fun x => str_in x ns) (k_required k)))
       else Raise TypeError
   end.
 
@@ -106,16 +122,16 @@ Fixpoint doc_chain (ops : list op) (st : dstate) : res dstate :=
 Definition req_wfb (ms : members) (req : list pystr) : bool :=
   negb (has_dup_str req) && forallb (fun n => negb (member_has_default ms n)) req.
 
-(* no Constant among the members (AllFieldsRequired reads `_default` of every member) *)
-Definition no_consts (ms : members) : bool := forallb (fun nm => negb (is_const (snd nm))) ms.
-
 Section Derive.
   Variable re_match : N -> pystr -> bool.
   Variable e : env.
   Variable gd : guards.
 
+  (* what the source's bases say about _ignore_none (the source itself is the head of its MRO) *)
+  Definition bases_ignore_none (g : genv) (k : klass) : option bool := inherited_ignore_none g (tl_str (k_mro k)).
+
   Definition derive (g : genv) (k : klass) (o : op) (cname : option pystr) : res klass :=
-    s <- derive_stmt k o cname ;; define re_match e gd g s.
+    s <- derive_stmt (bases_ignore_none g k) k o cname ;; define re_match e gd g s.
 
   (* successive derivations, each new class entering the environment *)
   Fixpoint derive_chain (g : genv) (k : klass) (ops : list (op * option pystr)) : res klass :=
